@@ -1021,6 +1021,11 @@ make_canonical() {
     return false;
   }
 
+  // If part of the path does not exist, only the leading part that does has
+  // been resolved, and what followed it was kept as it was written.  Clean
+  // that up too, so that canonicalizing the result again changes nothing.
+  standardize();
+
   return make_true_case();
 }
 
